@@ -348,22 +348,26 @@ impl LevelManifest {
 			}
 		}
 
-		// If we have multiple tables, check sequence continuity across all tables
+		// Tables on a level >= 1 are kept sorted by key and must not overlap in
+		// their key ranges. Their sequence ranges say nothing about that order (a
+		// table holding smaller keys may well have been written later), so it is
+		// the key ranges that are checked here.
 		if tables.len() > 1 {
 			for i in 0..tables.len() - 1 {
 				let current = &tables[i];
 				let next = &tables[i + 1];
 
-				// Check if sequence numbers maintain continuity
 				if let (Some(next_smallest), Some(current_largest)) =
-					(next.meta.smallest_seq_num, current.meta.largest_seq_num)
+					(next.meta.smallest_point.as_ref(), current.meta.largest_point.as_ref())
 				{
-					if next_smallest <= current_largest {
+					if next_smallest.user_key < current_largest.user_key {
 						return Err(Error::LoadManifestFail(format!(
-							"Level {} tables have overlapping sequence numbers: Table {} ({:?}-{:?}) and Table {} ({:?}-{:?})",
+							"Level {} tables have overlapping key ranges: Table {} (largest {:?}) and Table {} (smallest {:?})",
 							level_idx,
-							current.id, current.meta.smallest_seq_num, current.meta.largest_seq_num,
-							next.id, next.meta.smallest_seq_num, next.meta.largest_seq_num
+							current.id,
+							current_largest.user_key,
+							next.id,
+							next_smallest.user_key
 						)));
 					}
 				}
